@@ -73,7 +73,8 @@ def get_direction(direction, data=None, dx=None, dy=None, origin=None):
             print(basis)
             return _basis_with_names(basis)
 
-        if set(direction) == set("xyz"):  # case where direction = "xyz", "zyx" etc.
+        # case where direction = "xyz", "zyx" etc.
+        if len(direction) == 3 and set(direction) == set("xyz"):
             return VectorBasis(
                 n=dir_list[direction[0]],
                 u=dir_list[direction[1]],
